@@ -166,3 +166,27 @@ func Text(b []byte) string {
 	e := Unmarshal(b)
 	return proto.MarshalTextString(&e)
 }
+
+// ForeignPlatform rewrites the platform recorded in every errno
+// payload, which makes the receiver treat the errno as coming from
+// another OS/architecture. It returns the number of payloads changed.
+func ForeignPlatform(enc *errorspb.EncodedError) int {
+	n := 0
+	VisitDetails(enc, func(d *errorspb.EncodedErrorDetails, _ bool) {
+		if d.FullDetails == nil {
+			return
+		}
+		var da types.DynamicAny
+		if err := types.UnmarshalAny(d.FullDetails, &da); err != nil {
+			return
+		}
+		if p, ok := da.Message.(*errorspb.ErrnoPayload); ok {
+			p.Arch = "plan9:mips"
+			if a, err := types.MarshalAny(p); err == nil {
+				d.FullDetails = a
+				n++
+			}
+		}
+	})
+	return n
+}
